@@ -52,7 +52,12 @@ DTS = [0.005, 0.01, 0.02, 0.025, 0.05, 0.1, 0.5, 1.0, 2.0, 0.004, 0.0078125, 0.0
 
 
 def dt(rng):
-    return DTS[rng.integers(len(DTS))] if rng.random() < 0.8 else float(10.0 ** rng.uniform(-3, 0.5))
+    """a time step; now and then as an int (1, 2 s) or a numpy float64 scalar instead of a Python float"""
+    r = rng.random()
+    if r < 0.06:
+        return int(rng.integers(1, 3))
+    v = DTS[rng.integers(len(DTS))] if r < 0.8 else float(10.0 ** rng.uniform(-3, 0.5))
+    return np.float64(v) if rng.random() < 0.15 else v
 
 
 def seqs_by_code(nlevels, maxlen):
